@@ -58,6 +58,19 @@ func catalogue() []schedScenario {
 	s1d.Delay = true
 	s6d := sc("S21:a+b/12steps/delays", `a + on(l) group_left b`, 2, 12, 1, 2)
 	s6d.Delay = true
+	// operands that have series but no sample during the first batch (late starters), over
+	// three batches: workers are handed empty step vectors first
+	late := func(name, q string, delay bool) schedScenario {
+		x := sc(name, q, 2, 22, 1, 1)
+		x.Case.Data = []core.SeriesSpec{gen.Regular(`a{l="0",m="0"}`, 310000, 30000, 13, 1, 1), gen.Regular(`a{l="1",m="1"}`, 340000, 30000, 12, 10, 2),
+			gen.Regular(`b{l="0"}`, 0, 30000, 24, 5, 1)}
+		x.Case.O.LookbackMs = 20000
+		x.Delay = delay
+		return x
+	}
+	s22 := late("S22:-a/late starters/22steps", `-a`, false)
+	s23 := late("S23:-a/late starters/22steps/delays", `-a`, true)
+	s24 := late("S24:sum by (l)(-a)/late starters/22steps/delays", `sum by (l) (-a)`, true)
 	return []schedScenario{
 		sc("S1:a/2shards", `a`, 4, 2, 3, 4),
 		s2,
@@ -77,7 +90,7 @@ func catalogue() []schedScenario {
 		// back out of its pool while the outer one may still be reading them
 		sc("S16:sum by (l)(sum by (l,m)(a))/40steps", `sum by (l) (sum by (l, m) (a))`, 2, 40, 1, 2),
 		sc("S17:max(-sum by (l)(a))/40steps", `max(-sum by (l) (a))`, 2, 40, 1, 1),
-		dist, inst, pp, yp, ms, my, s16d, s4d, s1d, s6d,
+		dist, inst, pp, yp, ms, my, s16d, s4d, s1d, s6d, s22, s23, s24,
 	}
 }
 
